@@ -4,6 +4,7 @@ CONSTANTS
   MaxParts = 2
   Refs = {7, 8}
   SameRef = FALSE
+  Echo = TRUE
   MaxResend = 1
 INVARIANTS Unmixed AtMostOnce Paired
 CHECK_DEADLOCK FALSE
